@@ -107,6 +107,11 @@ theorem xlate_hostport (b : List UInt8) :
     ∃ h p, C20Xlate.obsHP (Generated.C20.XHostport.run { p0 := b }) = .ok (h, p) ∧ Spec.hostportOk (C20Xlate.chars b) h p = true :=
   C20Xlate.xhostport_spec b
 
+theorem xlate_hostport_utf8 (cs : List Char) :
+    ∃ s', Generated.C20.XHostport.run { p0 := C20Xlate.utf8 cs } =
+      .ok ((C20Xlate.utf8 (Spec.splitLastColon cs).1, C20Xlate.utf8 (Spec.splitLastColon cs).2), s') :=
+  C20Xlate.xhostport_utf8 cs
+
 theorem xlate_atoi (buf : List UInt8) (i : Int) (pad : Nat) (hlo : -2^63 < i) (hhi : i < 2^63) (hpad : pad ≤ 127) :
     C20Xlate.obsA (Generated.C20.XAtoi.run { p0 := buf, p1 := i, p2 := (pad : Int) }) = .ok (C20Xlate.chars buf ++ Spec.decimal i pad) :=
   C20Xlate.xatoi_eq_decimal buf i pad hlo hhi hpad
